@@ -147,6 +147,68 @@ func tamper(r *cq.RNG, mic lorawan.MIC, how int) lorawan.MIC {
 
 var hows = []string{"valid", "random", "bitflip", "first-half", "second-half"}
 
+// unchanged runs a call that only inspects the frame *p and reports when the frame afterwards prints or marshals
+// differently (MIC included). Nothing is restored: later calls see what a real caller would see.
+func unchanged(s *cases.Set, what string, p *lorawan.PHYPayload, call func() string) string {
+	before := framefmt.Phy(*p, 0)
+	bb, _ := marshalQuiet(*p)
+	o := call()
+	after := framefmt.Phy(*p, 0)
+	ab, _ := marshalQuiet(*p)
+	if before != after || string(bb) != string(ab) {
+		s.Fail(cases.GoFail{Key: "validate-changes-frame:" + what + ":" + before, What: what + " changed the frame it only inspects (a second validation, or MarshalBinary, now sees another frame)",
+			Replay: map[string]interface{}{"api": what, "frame_before": before, "frame_after": after, "bytes_before": hx(bb), "bytes_after": hx(ab), "result": o}})
+	}
+	return o
+}
+
+func marshalQuiet(p lorawan.PHYPayload) (b []byte, err error) {
+	defer func() {
+		if r := recover(); r != nil {
+			b, err = nil, fmt.Errorf("panic")
+		}
+	}()
+	return p.MarshalBinary()
+}
+
+// pointer forms of the validate helpers: the call is made on the caller's frame object itself
+func valUpP(p *lorawan.PHYPayload, v lorawan.MACVersion, conf uint32, dr, ch uint8, fk, sk lorawan.AES128Key) (s string) {
+	cases.Begin("ValidateUplinkDataMIC:"+framefmt.Phy(*p, 0), nil)
+	defer cases.End()
+	defer func() {
+		if r := recover(); r != nil {
+			s = cq.Panic
+		}
+	}()
+	return obool(p.ValidateUplinkDataMIC(v, conf, dr, ch, fk, sk))
+}
+
+func valUpFP(p *lorawan.PHYPayload, fk lorawan.AES128Key) (s string) {
+	cases.Begin("ValidateUplinkDataMICF:"+framefmt.Phy(*p, 0), nil)
+	defer cases.End()
+	defer func() {
+		if r := recover(); r != nil {
+			s = cq.Panic
+		}
+	}()
+	return obool(p.ValidateUplinkDataMICF(fk))
+}
+
+func valDownP(p *lorawan.PHYPayload, v lorawan.MACVersion, conf uint32, sk lorawan.AES128Key) (s string) {
+	cases.Begin("ValidateDownlinkDataMIC:"+framefmt.Phy(*p, 0), nil)
+	defer cases.End()
+	defer func() {
+		if r := recover(); r != nil {
+			s = cq.Panic
+		}
+	}()
+	return obool(p.ValidateDownlinkDataMIC(v, conf, sk))
+}
+
+// obj: when set by a verdict family, the validations of the next compared case are made on this one frame object
+// (the case's term is printed from the frame the caller believes it holds)
+var obj *lorawan.PHYPayload
+
 // upCaseM: one compared uplink case. fixed == nil: the carried MIC is the one just set, changed as `how` says;
 // fixed != nil: the frame carries *fixed (a MIC that was valid for a neighbouring call). quiet: no unrelated calls
 // in between (neighbour families run back to back). Returns the MIC Set computed.
@@ -164,8 +226,13 @@ func upCaseM(s *cases.Set, r *cq.RNG, p lorawan.PHYPayload, v lorawan.MACVersion
 		p.MIC = tamper(r, mic, how)
 	}
 	t := framefmt.Phy(p, 0)
-	oval := valUp(p, v, conf, dr, ch, fk, sk)
-	ovalf := valUpF(p, fk)
+	q := p
+	target := &p
+	if obj != nil {
+		target = obj
+	}
+	oval := unchanged(s, "ValidateUplinkDataMIC", target, func() string { return valUpP(target, v, conf, dr, ch, fk, sk) })
+	ovalf := unchanged(s, "ValidateUplinkDataMICF", target, func() string { return valUpFP(target, fk) })
 	key := fmt.Sprintf("up:%s:conf=%d:txdr=%d:txch=%d:fkey=%s:skey=%s:mic=%s:%s", ver(v), conf, dr, ch, hx(fk[:]), hx(sk[:]), what, t)
 	rp := map[string]interface{}{"api": "SetUplinkDataMIC on a copy, then ValidateUplinkDataMIC / ValidateUplinkDataMICF on the frame as given",
 		"macVersion": ver(v), "confFCnt": conf, "txDR": dr, "txCh": ch, "fNwkSIntKey": hx(fk[:]), "sNwkSIntKey": hx(sk[:]), "frame": t,
@@ -174,7 +241,6 @@ func upCaseM(s *cases.Set, r *cq.RNG, p lorawan.PHYPayload, v lorawan.MACVersion
 		Term: fmt.Sprintf("CUp %s %d %d %d %s %s %s %s %s %s", ver(v), conf, dr, ch, cq.Bytes(fk[:]), cq.Bytes(sk[:]), t, oset, oval, ovalf),
 		Key:  key, Kind: kind, Nontrivial: true, Replay: rp})
 	lastKey = clip(key)
-	q := p
 	s.Remember(key, oset+" "+oval+" "+ovalf, rp, func() string {
 		a, _, _ := setUp(q, v, conf, dr, ch, fk, sk)
 		return a + " " + valUp(q, v, conf, dr, ch, fk, sk) + " " + valUpF(q, fk)
@@ -200,7 +266,12 @@ func downCaseM(s *cases.Set, r *cq.RNG, p lorawan.PHYPayload, v lorawan.MACVersi
 		p.MIC = tamper(r, mic, how)
 	}
 	t := framefmt.Phy(p, 0)
-	oval := valDown(p, v, conf, sk)
+	q := p
+	target := &p
+	if obj != nil {
+		target = obj
+	}
+	oval := unchanged(s, "ValidateDownlinkDataMIC", target, func() string { return valDownP(target, v, conf, sk) })
 	key := fmt.Sprintf("down:%s:conf=%d:skey=%s:mic=%s:%s", ver(v), conf, hx(sk[:]), what, t)
 	rp := map[string]interface{}{"api": "SetDownlinkDataMIC on a copy, then ValidateDownlinkDataMIC on the frame as given",
 		"macVersion": ver(v), "confFCnt": conf, "sNwkSIntKey": hx(sk[:]), "frame": t, "carried_mic": what, "previous_compared_call": lastKey,
@@ -209,7 +280,6 @@ func downCaseM(s *cases.Set, r *cq.RNG, p lorawan.PHYPayload, v lorawan.MACVersi
 		Term: fmt.Sprintf("CDown %s %d %s %s %s %s", ver(v), conf, cq.Bytes(sk[:]), t, oset, oval),
 		Key:  key, Kind: kind, Nontrivial: true, Replay: rp})
 	lastKey = clip(key)
-	q := p
 	s.Remember(key, oset+" "+oval, rp, func() string {
 		a, _, _ := setDown(q, v, conf, sk)
 		return a + " " + valDown(q, v, conf, sk)
@@ -339,7 +409,45 @@ func family(s *cases.Set, r *cq.RNG, p lorawan.PHYPayload, up bool, v lorawan.MA
 		one(p, v, conf, dr, ch, fk, fk, "skey=fkey")
 		one(p, v, conf, dr, ch, sk, fk, "keys-swapped")
 		one(p, otherVer(v), conf, dr, ch, fk, sk, "other-version")
+		// MICs that are correct under a related formula of the library: all must be judged by the model
+		rel := func(what string, f func(c *lorawan.PHYPayload) error) {
+			c := p
+			if f(&c) == nil {
+				m2 := c.MIC
+				upCaseM(s, r, p, v, conf, dr, ch, fk, sk, 0, "family-up-related", "related-formula:"+what, &m2, true)
+			}
+		}
+		rel("other-version", func(c *lorawan.PHYPayload) error { return c.SetUplinkDataMIC(otherVer(v), conf, dr, ch, fk, sk) })
+		rel("downlink-formula-skey", func(c *lorawan.PHYPayload) error { return c.SetDownlinkDataMIC(v, conf, sk) })
+		rel("downlink-formula-fkey", func(c *lorawan.PHYPayload) error { return c.SetDownlinkDataMIC(v, conf, fk) })
+		rel("cmacF-only(1.0-form)", func(c *lorawan.PHYPayload) error { return c.SetUplinkDataMIC(lorawan.LoRaWAN1_0, 0, 0, 0, fk, fk) })
+		rel("micf-call-form", func(c *lorawan.PHYPayload) error { return c.SetUplinkDataMIC(lorawan.LoRaWAN1_1, 0, 0, 0, fk, fk) })
+		rel("keys-swapped", func(c *lorawan.PHYPayload) error { return c.SetUplinkDataMIC(v, conf, dr, ch, sk, fk) })
+		rel("neighbour-conf", func(c *lorawan.PHYPayload) error { return c.SetUplinkDataMIC(v, conf+1, dr, ch, fk, sk) })
+		rel("neighbour-txdr", func(c *lorawan.PHYPayload) error { return c.SetUplinkDataMIC(v, conf, dr+1, ch, fk, sk) })
+		rel("neighbour-txch", func(c *lorawan.PHYPayload) error { return c.SetUplinkDataMIC(v, conf, dr, ch+1, fk, sk) })
+		{
+			sw := mic
+			sw[0], sw[1], sw[2], sw[3] = mic[2], mic[3], mic[0], mic[1]
+			upCaseM(s, r, p, v, conf, dr, ch, fk, sk, 0, "family-up-related", "related-formula:halves-swapped", &sw, true)
+			ff := mic
+			ff[0], ff[1] = mic[2], mic[3]
+			upCaseM(s, r, p, v, conf, dr, ch, fk, sk, 0, "family-up-related", "related-formula:cmacF-half-twice", &ff, true)
+		}
 		one(p, v, conf, dr, ch, fk, sk, "base-again")
+		// verdict family: ONE frame object (signed for fk/sk) validated with wrong keys, with the same wrong keys
+		// again, then with the right ones - the carried MIC is never re-assigned in between
+		{
+			holder := p
+			holder.MIC = mic
+			obj = &holder
+			believed := holder
+			wrong := key(r)
+			upCaseM(s, r, believed, v, conf, dr, ch, wrong, wrong, 0, "family-up-verdict", "verdict:wrong-keys", &mic, true)
+			upCaseM(s, r, believed, v, conf, dr, ch, wrong, wrong, 0, "family-up-verdict", "verdict:wrong-keys-again", &mic, true)
+			upCaseM(s, r, believed, v, conf, dr, ch, fk, sk, 0, "family-up-verdict", "verdict:right-keys", &mic, true)
+			obj = nil
+		}
 	} else {
 		mic, ok := downCaseM(s, r, p, v, conf, sk, 0, "family-down-base", "valid", nil, true)
 		if !ok {
@@ -356,7 +464,29 @@ func family(s *cases.Set, r *cq.RNG, p lorawan.PHYPayload, up bool, v lorawan.MA
 		one(p, v, conf+0x10000, sk, "conf+2^16")
 		one(p, v, conf, zero, "skey-zero")
 		one(p, otherVer(v), conf, sk, "other-version")
+		rel := func(what string, f func(c *lorawan.PHYPayload) error) {
+			c := p
+			if f(&c) == nil {
+				m2 := c.MIC
+				downCaseM(s, r, p, v, conf, sk, 0, "family-down-related", "related-formula:"+what, &m2, true)
+			}
+		}
+		rel("other-version", func(c *lorawan.PHYPayload) error { return c.SetDownlinkDataMIC(otherVer(v), conf, sk) })
+		rel("uplink-formula-1.0", func(c *lorawan.PHYPayload) error { return c.SetUplinkDataMIC(lorawan.LoRaWAN1_0, 0, 0, 0, sk, sk) })
+		rel("uplink-formula-1.1", func(c *lorawan.PHYPayload) error { return c.SetUplinkDataMIC(lorawan.LoRaWAN1_1, conf, dr, ch, sk, sk) })
+		rel("neighbour-conf", func(c *lorawan.PHYPayload) error { return c.SetDownlinkDataMIC(v, conf+1, sk) })
 		one(p, v, conf, sk, "base-again")
+		{
+			holder := p
+			holder.MIC = mic
+			obj = &holder
+			believed := holder
+			wrong := key(r)
+			downCaseM(s, r, believed, v, conf, wrong, 0, "family-down-verdict", "verdict:wrong-key", &mic, true)
+			downCaseM(s, r, believed, v, conf, wrong, 0, "family-down-verdict", "verdict:wrong-key-again", &mic, true)
+			downCaseM(s, r, believed, v, conf, sk, 0, "family-down-verdict", "verdict:right-key", &mic, true)
+			obj = nil
+		}
 	}
 }
 
@@ -392,7 +522,7 @@ func main() {
 	r := cq.NewRNG(seed)
 	nr = cq.NewRNG(seed ^ 0x9e3779b97f4a7c15)
 	s := cases.New("C02", dir, "LW.Corr.C02",
-		"RFC 4493 examples 1-4 and FIPS-197 C.1 first; then data frames (framefmt.DataFrame) whose MIC message length is cycled over 1..16 CMAC blocks (FRMPayload length chosen for it), FCnt with high bits in 70%, ConfFCnt with high bits in 70%, ACK alternating, both MAC versions, txDR/txCh cycled over all byte values, random/degenerate keys, carried MIC = valid / random / one bit flipped / first half changed / second half changed; validate also called with the other direction's function; malformed: nil MACPayload, wrong payload type, unencodable frame (16-byte FOpts, MAC command on port > 0). Special MIC values: frames CONSTRUCTED (internal/micforge: CMAC inverted in its last block, which lies inside the FRMPayload; 1.1 uplink by a 2^16 search for the second half) so that their correct MIC is 00000000, ffffffff, 00000001, the MIC of the previous case, 0000xxxx, xxxx0000 - for uplink/downlink x 1.0/1.1; Set must give that MIC and Validate of the frame carrying it must be true. History: unrelated library calls (internal/noise) before every compared call; neighbour families run back to back (a base call whose frame carries its valid MIC, then the same call with exactly one input changed - single FCnt bits 16, 31, one more high and one low bit, FCnt + 2^16, ConfFCnt + 1 / + 2^16, txDR, txCh, each key zeroed, keys equal, keys swapped, other version - the frame still carrying the base MIC, then the base call again), each an ordinary case compared with model and specification; every compared call is repeated three times later in the process (reverse, same, shuffled order) and must give its first result. Cases are distinct by construction (random keys) except the repeated base calls.")
+		"RFC 4493 examples 1-4 and FIPS-197 C.1 first; then data frames (framefmt.DataFrame) whose MIC message length is cycled over 1..16 CMAC blocks (FRMPayload length chosen for it), FCnt with high bits in 70%, ConfFCnt with high bits in 70%, ACK alternating, both MAC versions, txDR/txCh cycled over all byte values, random/degenerate keys, carried MIC = valid / random / one bit flipped / first half changed / second half changed; validate also called with the other direction's function; malformed: nil MACPayload, wrong payload type, unencodable frame (16-byte FOpts, MAC command on port > 0). Special MIC values: frames CONSTRUCTED (internal/micforge: CMAC inverted in its last block, which lies inside the FRMPayload; 1.1 uplink by a 2^16 search for the second half) so that their correct MIC is 00000000, ffffffff, 00000001, the MIC of the previous case, 0000xxxx, xxxx0000 - for uplink/downlink x 1.0/1.1; Set must give that MIC and Validate of the frame carrying it must be true. History: unrelated library calls (internal/noise) before every compared call; neighbour families run back to back (a base call whose frame carries its valid MIC, then the same call with exactly one input changed - single FCnt bits 16, 31, one more high and one low bit, FCnt + 2^16, ConfFCnt + 1 / + 2^16, txDR, txCh, each key zeroed, keys equal, keys swapped, other version - the frame still carrying the base MIC, then the base call again), and MICs that are correct under a RELATED formula of the library (other version, downlink formula with either key, 1.0 / MICF form, keys swapped, neighbouring ConfFCnt/txDR/txCh, halves swapped, cmacF half twice), and a verdict family on ONE frame object (wrong keys, the same wrong keys again, the right keys; MIC never re-assigned), each an ordinary case compared with model and specification; after every Validate* call the frame must print and marshal as before (validate-changes-frame:); every compared call is repeated from 8 goroutines at once (ReplayConcurrently) and three times later in the process (reverse, same, shuffled order) and must give its first result. Cases are distinct by construction (random keys) except the repeated base calls.")
 	s.ShardSize = 60
 	n := 600
 	if thorough {
@@ -511,6 +641,7 @@ func main() {
 		}
 	}
 	s.ReplayRemembered(nr.Intn, 3, func() { noise.Step(nr) })
+	s.ReplayConcurrently(8, 3, 60*time.Second)
 	if err := s.Finish(); err != nil {
 		fmt.Fprintln(os.Stderr, err)
 		os.Exit(2)
